@@ -17,6 +17,7 @@ import hashlib
 import os
 import shutil
 import sys
+import threading
 from pathlib import Path
 
 from . import common  # noqa: F401  (puts /repo/src of the working tree on sys.path)
@@ -42,8 +43,9 @@ def _hook(name: str, args) -> None:
     if not _active:
         return
     w = _active[-1]
-    if w.busy:
-        return
+    if w.busy or w.thread != threading.get_ident():
+        return          # audit hooks see every thread of the process: only the thread that runs the code under test counts
+                        # (the harness's own TLC driver creates scratch directories from other threads)
     w.busy = True
     try:
         if name == "open":
@@ -72,6 +74,7 @@ class FsWatch:
 
     def __init__(self, on_open=None, on_mutate=None, on_exec=None):
         self.busy = False
+        self.thread = threading.get_ident()
         self.errors: list[str] = []
         self._on_open, self._on_mutate, self._on_exec = on_open, on_mutate, on_exec
 
@@ -88,6 +91,7 @@ class FsWatch:
             self._on_exec(what, args)
 
     def __enter__(self):
+        self.thread = threading.get_ident()
         if not _installed[0]:
             sys.addaudithook(_hook)
             _installed[0] = True
@@ -195,9 +199,22 @@ def registry() -> dict:
     return {str(p): sorted(str(b) for b in boards) for p, boards in pio.SUPPORTED_PLATFORMS.items()}
 
 
-def validate_case(platform: str, board: str) -> str:
-    """Outcome of the real validate_platform_board: 'accept' | name of the exception class."""
+def newstr(s):
+    """An equal string that is a different object (never the interned literal / the registry's own key object): what a
+    caller gets from a config file, argv, JSON or string arithmetic."""
+    if not isinstance(s, str) or len(s) < 2:
+        return s
+    t = (s + "\0")[:-1]
+    assert t == s and t is not s
+    return t
+
+
+def validate_case(platform: str, board: str, own: bool = False) -> str:
+    """Outcome of the real validate_platform_board: 'accept' | name of the exception class.
+    The arguments are passed as fresh string objects unless own=True (the caller's objects, e.g. the registry's keys)."""
     pio = pio_module()
+    if not own:
+        platform, board = newstr(platform), newstr(board)
     try:
         r = pio.validate_platform_board(platform, board)
     except ValueError:
@@ -269,8 +286,8 @@ def project_case(sandbox: Path, case: dict) -> dict:
     out = "ok"
     with FsWatch(on_open, on_mutate, on_exec) as w:
         try:
-            r = pio.write_project(proj, case["src"], case["port"], platform=case["platform"], board=case["board"],
-                                  lib_deps=case["libs"])
+            r = pio.write_project(proj, case["src"], newstr(case["port"]), platform=newstr(case["platform"]), board=newstr(case["board"]),
+                                  lib_deps=[newstr(x) for x in case["libs"]])
             if r is not None:
                 out = f"returned:{type(r).__name__}"
         except ValueError:
